@@ -153,10 +153,10 @@ func checkC08(c *mc.Ctx) {
 	c.Ev.Level = "model_checking"
 	c.Ev.Rule = "read schedules are enumerated: every fixed chunk size 1..400 and, with the deviation-bounded explorer, every Read call answering {1, 2, half, n-1} bytes instead of n for up to 2 deviations; x reader kind x explicit/auto x packet size 188+k; packet and data sequences of the real Demuxer compared with the baseline (bytes.Reader, explicit 188); distinct_nontrivial = distinct (configuration, schedule) runs"
 	c.Ev.Assumptions = append(c.Ev.Assumptions,
-		"larger packets use the library's documented layout: sync byte, k extra bytes, remaining 187 bytes; no 0x47 at offsets 188..192 of the first packet other than the next sync byte",
+		"larger packets use the library's documented layout: sync byte, k extra bytes, remaining 187 bytes; no 0x47 inside the FIRST packet at offsets 188..187+k (the heuristic takes the first sync byte at or after 188; 0x47 bytes after the second packet's sync byte are part of the domain)",
 		"a plain non-seekable reader with auto-detection loses the two packets consumed by detection (documented); the expected output is that of the stream without them",
 		"bufio.Reader with the default 4096-byte buffer")
-	streams := append(StandardStreams(c.Seed), TinyPayloadStream(c.Seed))
+	streams := append(StandardStreams(c.Seed), TinyPayloadStream(c.Seed), SyncLookalikeStream(c.Seed))
 	var cfgs []c08Cfg
 	for _, kind := range []string{"bytes", "bufio", "plain", "seek"} {
 		for _, k := range []int{0, 1, 2, 3, 4, 16} {
